@@ -77,6 +77,9 @@ def describe_exc(exc):
         if not d["name"]:
             m = re.search(r"name '([^']+)' is not defined", str(exc))
             d["name"] = m.group(1) if m else ""
+    if isinstance(exc, ImportError):
+        m = re.search(r"cannot import name '([^']+)'", str(exc)) or re.search(r"No module named '([^']+)'", str(exc))
+        d["name"] = m.group(1) if m else (getattr(exc, "name", None) or "")
     if isinstance(exc, AttributeError):
         d["name"] = getattr(exc, "name", None) or ""
         obj = getattr(exc, "obj", None)
